@@ -27,7 +27,12 @@ void GuardRegion::protect_readonly(bool on) {
     mprotect(base, cap, on ? PROT_READ : (PROT_READ | PROT_WRITE));
 }
 
-static GuardRegion g_in, g_out;
+static const int MAXTASK = 8;
+static GuardRegion g_in_t[MAXTASK], g_out_t[MAXTASK];
+static int g_task = 0;
+void guard_set_task(int t) { g_task = (t >= 0 && t < MAXTASK) ? t : 0; }
+#define g_in (g_in_t[g_task])
+#define g_out (g_out_t[g_task])
 static const unsigned char CANARY = 0xC7;
 static const size_t PRE = 64;
 
